@@ -36,6 +36,10 @@ def symFilt : Mealy Cell Cell (Option Nat) where
     | some n, .x k => if k = n then (.f n, some (n + 1)) else (.bad, none)
     | _, _ => (.bad, none)
 
+/-- `lfilter` as SciPy behaves: for an empty input the reported final state is garbage (`none`) -/
+def symLf (s : Option Nat) (y : List Cell) : List Cell × Option Nat :=
+  if y.isEmpty then ([], none) else symFilt.run s y
+
 def symInit (c : Cell) : Option Nat := if c = .x 0 then some 0 else none
 
 def symBlock (l : List Cell) : Cell :=
@@ -118,10 +122,10 @@ def push (s : St) (len : Nat) (gap : Int) : St × String :=
   match s.stage with
   | .blocked b st => finish s 0 (.blocked b) s' (blockedStep b st y)
   | .downsample q st => finish s 0 (.downsample q) s' (downsampleStep divFs s.twoD q st y)
-  | .decimate q st => finish s 0 (.decimate q) s' (decimateStep symFilt (some 0) divFs q st y)
+  | .decimate q st => finish s 0 (.decimate q) s' (decimateStep symLf (some 0) divFs q st y)
   | .discard st => finish s 0 .discard s' (discardStep st y)
   | .rms n st => finish s n (.rms n) s' (rmsStep symBlock divFs n st y)
-  | .iir st => finish s 0 .iir s' (iirStep symFilt symInit st y)
+  | .iir st => finish s 0 .iir s' (iirStep symLf symInit st y)
   | .derivative st => finish s 0 .derivative s' (derivativeStep Cell.ini symDiff st y)
   | .pointwise => finish s 0 (fun _ => .pointwise) s' (transformStep (pointwise symPoint) () y)
   | .autoTh bl st =>
